@@ -1200,6 +1200,15 @@ impl Visitor<Diagnostic> for LibraryRenderer {
         };
         self.write_ws(op);
 
+        // The operand of a unary operator is a primary expression, so
+        // another unary expression needs parentheses to be one
+        if let dsl::textual::ExprKind::UnaryOp(_) = &node.term {
+            self.write_ws("(");
+            self.visit_expr_kind(&node.term)?;
+            self.write_ws(")");
+            return Ok(());
+        }
+
         self.visit_expr_kind(&node.term)
     }
 
